@@ -16,8 +16,7 @@ import flobuild as fb
 FUNCS = ["Convert2Num", "Convert2CoordNum", "Convert2BoolCoordNum", "Convert2StrBoolCoordNum", "Convert2PointNum",
          "Convert2CoordPointNum", "Convert2BoolCoordPointNum", "Convert2PathCoordPointNum",
          "Convert2BoolPathCoordPointNum", "Convert2StrBoolPathCoordPointNum"]
-PYSPACE = set("\t\n\x0b\x0c\r\x1c\x1d\x1e\x1f \x85\xa0          "
-              "      　")
+PYSPACE = {chr(i) for i in range(0x3001) if chr(i).isspace()}      # Py_UNICODE_ISSPACE
 
 
 def hx(s):
@@ -242,7 +241,9 @@ def gen_literal(rng, shape=None):
             out += num() + r.choice([l, l, l.upper(), ",", l + l, ""])
         return out + r.choice(["", "", "\n", "q"])
     if s == "padded":
-        return r.choice([" ", "\t", "\x0b", "\xa0", "\x1c"]) + gen_literal(r, r.choice(["int", "hex", "float", "complex", "special"])) + r.choice(["", " ", "\n", "\x0c"])
+        return r.choice([" ", "\t", "\x0b", "\xa0", "\x1c", "\xa0\x1c", "\x1f\u2003", "\u2003", "\x85"]) + \
+            gen_literal(r, r.choice(["int", "hex", "float", "complex", "special"])) + \
+            r.choice(["", " ", "\n", "\x0c", "\xa0", "\x1d", "\u3000\x1e"])
     if s == "mutant":
         t = gen_literal(r, r.choice(SHAPES[:13]))
         i = r.randrange(0, len(t) + 1)
